@@ -5,3 +5,7 @@
 mod driver;
 #[path = "/verif/kani/vanilla/advance.rs"]
 mod advance;
+#[path = "/verif/kani/vanilla/steps.rs"]
+mod steps;
+#[path = "/verif/kani/vanilla/threads.rs"]
+mod threads;
